@@ -27,7 +27,7 @@ CHECKS = {
     "C15": _node("^TestC15", race=True),
     "C16": _node("^TestC16"),
     "C03": _msg("^TestC03"),
-    "C04": _msg("^TestC04"),
+    "C04": dict(_msg("^(Test|Fuzz)C04"), fuzz=[{"pkg": "msg", "target": "FuzzC04Read", "time": "150s"}]),
     "C17": _msg("^TestC17"),
     "C19": _msg("^TestC19"),
     "C18": {"pkg": "dgen", "run": "^TestC18",
@@ -36,7 +36,7 @@ CHECKS = {
             "quick": {"shards": 1, "timeout": 600}, "thorough": {"shards": 16, "timeout": 2400}},
     "C02": {"pkg": "wire", "run": "^TestC02",
             "quick": {"shards": 1, "timeout": 600}, "thorough": {"shards": 16, "timeout": 2400}},
-    "C05": {"pkg": "wire", "run": "^TestC05",
+    "C05": {"pkg": "wire", "run": "^(Test|Fuzz)C05", "fuzz": [{"pkg": "wire", "target": "FuzzC05Reader", "time": "150s"}],
             "quick": {"shards": 1, "timeout": 600}, "thorough": {"shards": 16, "timeout": 2400}},
     "C06": {"parts": [{"pkg": "wire", "run": "^TestC06"}, {"pkg": "node", "run": "^TestC06"}],
             "quick": {"shards": 1, "timeout": 600}, "thorough": {"shards": 16, "timeout": 2400}},
@@ -46,7 +46,7 @@ CHECKS = {
             "quick": {"shards": 1, "timeout": 600}, "thorough": {"shards": 16, "timeout": 2400}},
     "C09": {"parts": [{"pkg": "wire", "run": "^TestC09"}, {"pkg": "node", "run": "^TestC09"}],
             "quick": {"shards": 1, "timeout": 600}, "thorough": {"shards": 16, "timeout": 2400}},
-    "C20": {"pkg": "wire", "run": "^TestC20",
+    "C20": {"pkg": "wire", "run": "^(Test|Fuzz)C20", "fuzz": [{"pkg": "wire", "target": "FuzzC20Tlog", "time": "120s"}],
             "quick": {"shards": 1, "timeout": 600}, "thorough": {"shards": 16, "timeout": 2400}},
 }
 
